@@ -66,6 +66,7 @@ class Ob:
     functions_under_contract: Tuple[str, ...] = ()
     abstract: Tuple[str, ...] = ()      # callees replaced by the purity contract (regex on mangled names)
     defs: Tuple[str, ...] = ()          # extra -D options for goto-cc (case splits)
+    needs: Tuple[str, ...] = ()         # ids of obligations (Lean lemma files) this proof rests on: not discharged unless they are
 
 
 @dataclass
@@ -603,14 +604,23 @@ def solve_static(ob, workdir):
     if ob.dfcc and ob.dfcc.get('tool') == 'lean':
         # a mathematical lemma the contracts lean on, machine-checked by Lean 4 + Mathlib (supporting fact, not counted)
         t0 = time.time()
+        if ob.dfcc.get('text') is not None:
+            ob.dfcc['file'] = os.path.join(d, 'lemmas.lean')
+            open(ob.dfcc['file'], 'w').write(ob.dfcc['text'])
+        srctxt = open(ob.dfcc['file']).read()
+        banned = [w for w in ('sorry', 'admit', 'axiom', 'native_decide', 'unsafe', 'implemented_by', 'opaque') if re.search(r'\b%s\b' % w, re.sub(r'/-.*?-/', '', srctxt, flags=re.S))]
+        if banned:
+            r.status = 'error'; r.detail = 'lemma file uses %r: not a proof' % banned; return r
         rc, out, err, dt = run(['lean', ob.dfcc['file']], timeout=ob.budget, mem_kb=32 * 1024 * 1024)
-        r.seconds = time.time() - t0; r.backend = 'lean 4 + Mathlib'; r.n_props = 1; r.canary = True
-        if rc == 0 and 'error' not in out and 'sorry' not in out:
+        r.seconds = time.time() - t0; r.backend = 'lean 4 + Mathlib'; r.n_props = len(re.findall(r'^theorem ', srctxt, flags=re.M)); r.canary = True
+        n_ax = len(re.findall(r"depends on axioms|does not depend on any axioms", out))
+        if rc == 0 and 'error' not in out and 'sorry' not in out and n_ax >= srctxt.count('#print axioms'):
             r.status = 'proved'
         elif rc is None:
             r.status = 'undecided'; r.detail = 'lean timed out'
         else:
-            r.status = 'failed'; r.failed_props = ['LEMMA:lean rejected %s' % ob.dfcc['file']]; r.log = (out + err)[-2000:]
+            # a rejected lemma is a defect of the proof text, never of /repo: infrastructure, not a violation
+            r.status = 'error'; r.detail = 'LEMMA: lean rejected %s: %s' % (ob.dfcc['file'], (out + err)[-1500:])
         return r
     src = os.path.join(d, 'probe.cc')
     open(src, 'w').write(ob.body)
